@@ -283,7 +283,7 @@ pub fn ops() -> Vec<OpDef> {
             "{ let a = $S; let banned = a.location().source_iter(q!(vec![1i32])); a.map(q!(|x| (x.rem_euclid(3), x))).anti_join(banned) }"
         ),
         op!("filter_not_in_static", Kind::S, T_EO, "{ let a = $S; let banned = a.location().source_iter(q!(vec![1i32, 4])); a.filter_not_in(banned) }"),
-        op!("partition_even", Kind::S, T_ALL, "{ let (even, odd) = $S.partition(q!(|x| *x % 2 == 0)); odd.for_each(q!(|_| {})); even }"),
+        op!("partition_even", Kind::S, T_STRICT, "{ let (even, odd) = $S.partition(q!(|x| *x % 2 == 0)); odd.for_each(q!(|_| {})); even }"),
         OpDef {
             needs_unbounded: true,
             out_ord: OutOrd::No,
@@ -401,7 +401,9 @@ impl Rng {
 }
 
 pub const DEFAULT_SEED: u64 = 0xE4_4A7_21C5;
-pub const N_RANDOM: usize = 40;
+pub const N_RANDOM: usize = 32;
+/// the generated code is compiled in this many crates in parallel (`genm0..`)
+pub const N_SHARDS: usize = 6;
 
 pub fn seed_from_env() -> u64 {
     std::env::var("E4_MATRIX_SEED").ok().and_then(|s| s.parse().ok()).unwrap_or(DEFAULT_SEED)
@@ -420,20 +422,35 @@ pub fn entries(seed: u64) -> Vec<MEntry> {
         let name = format!("m{idx:03}_{}{}_{}_{}", pre.map(|p| format!("{p}_")).unwrap_or_default(), op.name, ctx.tag(), typ.tag());
         out.push(MEntry { idx, name, op: op.name, pre, ctx, typ, random });
     };
-    // (1) every admissible (operator, context) pair with the strict typing
-    for op in &ops {
-        for ctx in ALL_CTX {
-            let typ = if op.typs.contains(&Typ::ToEo) { Typ::ToEo } else { op.typs[0] };
-            if admissible(op, *ctx, typ) {
-                push(&mut out, op, None, *ctx, typ, false);
+    // (1) strict typing: every operator in the five main contexts, and in two of the five other
+    // contexts (rotating, so that every (context, operator family) pair is covered by several
+    // operators); operators that only exist on bounded collections additionally in `TopBounded`
+    const MAIN: &[Ctx] = &[Ctx::Top, Ctx::Atomic, Ctx::TickBatch, Ctx::TickClone, Ctx::AcrossTicks];
+    const OTHER: &[Ctx] = &[Ctx::TopClone, Ctx::TickCycle, Ctx::TickCycleDefer, Ctx::TickDefer, Ctx::TopBounded];
+    for (i, op) in ops.iter().enumerate() {
+        let typ = if op.typs.contains(&Typ::ToEo) { Typ::ToEo } else { op.typs[0] };
+        let mut ctxs: Vec<Ctx> = MAIN.to_vec();
+        ctxs.push(OTHER[i % 5]);
+        ctxs.push(OTHER[(i + 2) % 5]);
+        if op.needs_bounded || op.trusted_site {
+            ctxs.push(Ctx::TopBounded);
+        }
+        for ctx in ctxs {
+            if admissible(op, ctx, typ) {
+                push(&mut out, op, None, ctx, typ, false);
             }
         }
     }
-    // (2) every admissible (operator, weak typing) pair: in an atomic region, in a tick batch and
-    // at top level (where the operator exists there)
-    for op in &ops {
-        for typ in [Typ::NoEo, Typ::ToAlo, Typ::NoAlo] {
-            for ctx in [Ctx::Atomic, Ctx::TickBatch, Ctx::Top, Ctx::AcrossTicks] {
+    // (2) every admissible (operator, weak typing) pair in two of {atomic region, tick batch,
+    // top level, across_ticks} (rotating); operators that consume a weak type in all of them
+    const WEAK: &[Ctx] = &[Ctx::Atomic, Ctx::TickBatch, Ctx::Top, Ctx::AcrossTicks];
+    for (i, op) in ops.iter().enumerate() {
+        for (j, typ) in [Typ::NoEo, Typ::ToAlo, Typ::NoAlo].into_iter().enumerate() {
+            let mut ctxs: Vec<Ctx> = if op.trusted_site { WEAK.to_vec() } else { vec![WEAK[(i + j) % 4], WEAK[(i + j + 2) % 4]] };
+            if op.tick_only {
+                ctxs = vec![Ctx::TickBatch, Ctx::TickClone];
+            }
+            for ctx in ctxs {
                 if admissible(op, ctx, typ) {
                     push(&mut out, op, None, ctx, typ, false);
                 }
